@@ -15,6 +15,28 @@ def rounded_ok(v, nd: int) -> bool:
     return v is None or isinstance(v, (bool, int)) or round(v, nd) == v
 
 
+MISSING = object()
+
+
+def counter_input(name: str, c: Dict):
+    """The value Counter's input has on a snapshot candle (None when the reading is absent), or
+    MISSING when the name is outside what this helper resolves."""
+    o, h, l, cl, v = c["ohlcv"]
+    if name == "positive":
+        return cl > o
+    if name == "negative":
+        return o > cl
+    if name in ("open", "high", "low", "close", "volume"):
+        return {"open": o, "high": h, "low": l, "close": cl, "volume": v}[name]
+    root, _, field = name.partition(".")
+    if "." in field:
+        return MISSING
+    val = c["inds"].get(root, c["subs"].get(root)) if root in c["inds"] or root in c["subs"] else None
+    if field:
+        return val.get(field) if isinstance(val, dict) else val
+    return val
+
+
 def relations(kind: str, ind, snap: List[Dict]) -> Optional[Dict]:
     """First violated relation of the property text, or None."""
     name = ind.name
@@ -90,6 +112,14 @@ def relations(kind: str, ind, snap: List[Dict]) -> Optional[Dict]:
                 return {"relation": "counter-type"}
             if prev is not None and not (r == prev + 1 or r == 0 or r == prev):
                 return {"relation": "counter-step"}
+            # against the counted input itself: a run grows by one while the input equals the counted
+            # value, resets when it differs, and stands still only while the input is missing
+            x = counter_input(ind.input_value, c)
+            if x is not MISSING:
+                p0 = prev if isinstance(prev, int) else 0
+                want = p0 if x is None else (p0 + 1 if x == ind.count_value else 0)
+                if r != want:
+                    return {"relation": "counter-vs-input"}
         prev = r
     return None
 
@@ -126,6 +156,58 @@ def falsify(ctx, case: Dict) -> bool:
     return False
 
 
+def falsify_chain(ctx, case: Dict) -> bool:
+    """A Counter over another member's reading, registered after that member through
+    add_indicator, with candles arriving afterwards: the run it counts must follow the input
+    reading of the very same candle."""
+    from .. import hx
+    rows, k = case["rows"], case["split"]
+    try:
+        with core.time_limit(40):
+            base = X.build(case["base"], [], {})
+            h = hx.hexital(rows[:k], [base], case["cfg"])
+            dep = X.build({"kind": "COUNTER", "kw": {"input_value": case["input"].replace("$", base.name),
+                                                      "count_value": case["count_value"]}, "round_value": 4}, [], {})
+            if case["late_add"]:
+                h.add_indicator(dep)
+            else:
+                h.add_indicator([dep])
+            h.calculate()
+            for i in range(k, len(rows), case["chunk"]):
+                h.append(X.mk_rows(rows[i:i + case["chunk"]]))
+            snap = hx.hx_snapshot(h)["default"]
+            bad = relations("COUNTER", dep, snap)
+    except Exception:  # noqa  (C09's subject)
+        ctx.count("chained_member_raised")
+        return False
+    if bad:
+        ctx.fail({"kind": "COUNTER", **bad, "where": "chained-member"},
+                 f"Counter over {case['input']} of {case['base']} added by add_indicator, n={len(rows)} split={k}: {bad}",
+                 {"chain": case}, size=len(rows))
+        return True
+    return False
+
+
+def gen_chain(rng, ctx) -> Dict:
+    n = rng.randint(12, 60)
+    rows = X.gen_rows(rng, n, rng.choice(["walk", "mixed", "eqclose", "up", "down"]))
+    for r in rows:
+        r["inds"] = {}
+    which = rng.choice(["supertrend", "stdevthres", "amorph"])
+    if which == "supertrend":
+        base = {"kind": "SUPERTREND", "kw": {"period": rng.choice([2, 3, 5]), "multiplier": rng.choice([1.0, 2.0, 3.0])}, "round_value": 4}
+        inp, cv = "$.direction", rng.choice([1, -1])
+    elif which == "stdevthres":
+        base = {"kind": "STDEVTHRES", "kw": {"period": rng.choice([2, 3, 5]), "multiplier": rng.choice([0.5, 1.0]), "input_value": "close"}, "round_value": 4}
+        inp, cv = "$", rng.choice([True, False])
+    else:
+        base = {"kind": "AMORPH", "kw": {}, "analysis": {"f": "positive_list" if False else "doji", "lookback": None}, "round_value": 4}
+        inp, cv = "$", rng.choice([True, False])
+    cfg = {"tf": rng.choice([None, None, "T2", "T3"])}
+    return {"rows": rows, "split": rng.randint(0, n // 2), "chunk": rng.choice([1, 1, 2, 5]), "base": base,
+            "input": inp, "count_value": cv, "cfg": cfg, "late_add": rng.random() < 0.5}
+
+
 def run(ctx: core.Ctx) -> int:
     proof = C.check_props("C10")
     ctx.proof_broken.extend(proof["broken"])
@@ -147,6 +229,9 @@ def run(ctx: core.Ctx) -> int:
         ctx.seen({"spec": c["spec"], "cfg": c["cfg"], "rows": c["rows"]}, len(c["rows"]) >= 2 * c["spec"]["kw"].get("period", 2))
         if len(ctx.samples) < 3 and len(c["rows"]) > 10:
             ctx.sample({"spec": c["spec"], "cfg": c["cfg"], "n": len(c["rows"])})
+    for _ in range(ctx.n(60, 600)):
+        ctx.count("eval_falsifier_chained_member")
+        falsify_chain(ctx, gen_chain(rng, ctx))
     corr.run()
     ctx.coverage.update({"input_distribution": dist,
                          "nontrivial_rule": "stream at least twice as long as the indicator's period",
@@ -155,6 +240,10 @@ def run(ctx: core.Ctx) -> int:
 
 
 def replay(ctx: core.Ctx, rep: Dict) -> int:
+    if "chain" in rep["replay"]:
+        failed = falsify_chain(ctx, rep["replay"]["chain"])
+        print("REPRODUCED" if failed else "NOT-REPRODUCED")
+        return 1 if failed else 0
     failed = falsify(ctx, rep["replay"]["case"])
     print("REPRODUCED" if failed else "NOT-REPRODUCED")
     return 1 if failed else 0
